@@ -109,7 +109,16 @@ structure Mon where
   ob : Bound := {}
   prev : Obs := {}
   meter : Meter := {}
+  /-- the leader of the cluster's shard known from the server info (0: none) -/
+  leader : Nat := 0
   deriving Repr, Inhabited
+
+/-- does this server-info sync publish ANOTHER leader for the cluster's shard than the one known? Only then does it
+    count as a sign of life (a success in the heartbeat history); re-publishing the known leader says nothing about
+    that leader's health and must not touch readiness. -/
+def leaderChange (m : Mon) : Op → Option (Nat × Int)
+  | .sync false _ (some l) now => if m.leader ≠ l then some (l, now) else none
+  | _ => none
 
 /-- does this operation (re)size the remote limiter from the configuration? -/
 def effective (m : Mon) : Op → Bool
@@ -134,10 +143,13 @@ def Mon.next (m : Mon) (op : Op) (o : Obs) : Mon :=
   let gs' := if effective m op then (match m.schema with | some s => globalOf s | none => m.gs) else m.gs
   let ob' := if o.unavail then m.ob.sup gs' else gs'
   { schema := schema'
-    hist := match op with | .hb ok now false => (ok, now) :: m.hist | _ => m.hist
-    shards := match op with | .shards n => n | _ => m.shards
+    hist := match op with
+      | .hb ok now false => (ok, now) :: m.hist
+      | _ => match leaderChange m op with | some (_, now) => (true, now) :: m.hist | none => m.hist
+    shards := match op with | .shards n => n | .sync false n _ _ => n | _ => m.shards
     synced := synced', gs := gs', ob := ob', prev := o
-    meter := match op with | .meter x => x | _ => m.meter }
+    meter := match op with | .meter x => x | _ => m.meter
+    leader := match leaderChange m op with | some (l, _) => l | none => m.leader }
 
 def expectedChoice (cfg : Cfg) (m : Mon) : Choice :=
   match m.schema with
